@@ -479,10 +479,38 @@ def gen_sym_exists(rng: Rng) -> dict:
     return case
 
 
+def gen_twin_exists(rng: Rng) -> dict:
+    """exists over y with a free variable x that ranges over value-equal but DISTINCT objects (class T compares by key):
+    a de-duplication of the other variables' bindings by VALUE instead of identity loses the twin's row (seeded C01-A)"""
+    n = rng.randint(1, 3)
+    objs = [{"id": i, "cls": "P", "key": i, "a": rng.randint(0, 2), "b": rng.randint(0, 2), "items": [], "kids": [],
+             "child": rng.randint(1, n)} for i in range(1, n + 1)]
+    m = rng.randint(2, 4)
+    for j in range(1, m + 1):
+        k = 0 if j <= 2 else rng.randint(0, 1)
+        objs.append({"id": 100 + j, "cls": "T", "key": 1000 + k, "k": k, "a": rng.randint(0, 2)})
+    tids = [o["id"] for o in objs if o["cls"] == "T"]
+    pids = [o["id"] for o in objs if o["cls"] == "P"]
+    case: Dict[str, Any] = {"objs": objs, "vars": {"x": "T", "y": "P"},
+                            "doms": {"x": rng.sample(tids, len(tids)), "y": rng.sample(pids, rng.randint(1, n))}}
+    xa = ["attr", ["var", "x"], rng.choice(["a", "k"])]
+    body = ["cmp", rng.choice(["<=", ">=", "!=", "=="]), ["attr", ["var", "y"], rng.choice(["a", "b"])], xa]
+    if rng.chance(0.3):
+        body = ["and", body, ["cmp", rng.choice([">=", "<="]), ["attr", ["var", "y"], "a"], ["lit", rng.randint(0, 2)]]]
+    q = ["exists", "y", body]
+    case["cond"] = q if rng.chance(0.7) else ["and", ["cmp", rng.choice([">=", "<=", "!="]), xa, ["lit", rng.randint(0, 2)]], q]
+    case["sels"] = [["var", "x"]]
+    return case
+
+
 def gen_case(rng: Rng, profile: str = "c01", extras: bool = False) -> dict:
     """profile c01: everything; c02: biased to the conjunctive / else-if fragment with duplicate-free domains"""
-    if profile == "quant" and rng.chance(0.12):
-        return gen_sym_exists(rng)
+    if profile == "quant":
+        r0 = rng.random()
+        if r0 < 0.12:
+            return gen_sym_exists(rng)
+        if r0 < 0.22:
+            return gen_twin_exists(rng)
     twins = profile == "quant" and rng.chance(0.35)
     objs = gen_world(rng, twins)
     pids = [o["id"] for o in objs if o["cls"] == "P"]
